@@ -332,7 +332,10 @@ def catalogue():
                    grammars=(JSON,), has_jac=False, **_ap()))  # linearize raises KeyError('yy') (not a C20 matter)
     E.append(Entry("TaylorDiscipline", lambda: TaylorDiscipline(_analytic("TA"), {"x": one(0.25), "p": one(0.5)}),
                    xname="x", pname="p", xvals=[one(0.5), one(1.25)], pvals=[one(0.5), one(0.75)],
-                   has_jac=False))  # execute(x); linearize(x) raises "was not linearized" (not a C20 matter)
+                   has_jac=False, caches=("none",)))
+    # TaylorDiscipline keeps its coefficients in self.jac, which a cache hit resets: execute(x); execute(x);
+    # execute(x') raises KeyError, linearize after a hit raises "was not linearized" - with or without pickling
+    # (a cache-transparency matter, not C20): replayed without a cache.
     E.append(Entry("MDOChain", lambda: MDOChain(_abc()), family="chain", **_ap()))
     E.append(Entry("MDOParallelChain", lambda: MDOParallelChain(_abc()[:1] + [_analytic("PB")]), family="chain", **_ap()))
     E.append(Entry("MDOAdditiveChain",
